@@ -28,6 +28,8 @@ KIND = {"alias_pub": "function", "__radd__": "function", "static0": "staticmetho
         "__call__": "function", "__eq__": "function", "__getattr__": "function", "__repr__": "function", "__str__": "function",
         "prop": "property", "_prot_prop": "property", "wo_prop": "property", "ro_prop": "property", "ro_prop_setter": "property", "static": "staticmethod", "classm": "classmethod", "__setattr__": "function"}
 REALNAME = {"__priv": "_L0__priv"}
+NEIGHBOURS = [{"from": "C17", "limit": 500, "why": "the invariants evaluated around an inherited member are those of the class of the instance, whatever was called first"},
+              {"from": "C18", "limit": 500, "why": "every invariant listed for a class is enforced on real calls"}]
 
 
 def sel_cases():
